@@ -605,16 +605,11 @@ func (p *Parser) constAssertDecl() (*ConstAssertDecl, *ParseError) {
 		return nil, &ParseError{Message: "expected 'const_assert'", Token: p.peek()}
 	}
 
-	// const_assert can optionally have parentheses: const_assert(expr) or const_assert expr
-	hasParen := p.match(TokenLeftParen)
+	// const_assert(expr) is const_assert followed by a parenthesized expression;
+	// the parenthesis may also open only the first operand: const_assert (a + b) > c;
 	cond, err := p.expression()
 	if err != nil {
 		return nil, err
-	}
-	if hasParen {
-		if err := p.expectErr(TokenRightParen); err != nil {
-			return nil, err
-		}
 	}
 
 	if err := p.expectSemicolon(); err != nil {
